@@ -38,6 +38,7 @@ func (m *CPU) Context() *risc.Context {
 }
 
 func (m *CPU) Run(app risc.Application) (int, error) {
+	app.Reset()
 	var pc int32
 	for pc/4 < int32(len(app.Instructions)) {
 		m.ctx.VerifTick(m.cycle)
